@@ -259,14 +259,14 @@ def mkLeaf (g : Graph) (k : Kind) (c : Content) : Graph × NodeId :=
 mutual
 /-- `Rep g n e`: the object `n` of graph `g` represents the selection value `e` (children are
 older objects than their parents — object graphs built by constructors and `copy()` are acyclic). -/
-def Rep (g : Graph) : NodeId → Expr → Prop
+def Rep (g : Graph) : Nat → Expr → Prop
   | n, .leaf c => ∃ k p, g.nodes[n]? = some (.leaf k p) ∧ g.params[p]? = some c
-  | n, .bin op a b => ∃ l r, g.nodes[n]? = some (.bin op l r) ∧ l < n ∧ r < n ∧ Rep g l a ∧ Rep g r b
-  | n, .inv a => ∃ c, g.nodes[n]? = some (.inv c) ∧ c < n ∧ Rep g c a
+  | n, .bin op a b => ∃ l r : Nat, g.nodes[n]? = some (.bin op l r) ∧ l < n ∧ r < n ∧ Rep g l a ∧ Rep g r b
+  | n, .inv a => ∃ c : Nat, g.nodes[n]? = some (.inv c) ∧ c < n ∧ Rep g c a
   | n, .multiOr es => ∃ lst cs, g.nodes[n]? = some (.multiOr lst) ∧ g.lists[lst]? = some cs ∧
-      RepList g n cs es
+      es ≠ [] ∧ RepList g n cs es
 /-- Elementwise `Rep` for the elements of a `states` list, all older than `b`. -/
-def RepList (g : Graph) (b : Nat) : List NodeId → List Expr → Prop
+def RepList (g : Graph) (b : Nat) : List Nat → List Expr → Prop
   | [], [] => True
   | c :: cs, e :: es => c < b ∧ Rep g c e ∧ RepList g b cs es
   | [], _ :: _ => False
